@@ -44,6 +44,11 @@ class RepoModule:
                         ('from', node.module, a.name))
 
 
+def _cid(c):
+    m = c.module
+    return (getattr(m, 'name', m), c.name)
+
+
 class SuperProxy:
     def __init__(self, obj, after):
         self.obj, self.after = obj, after
@@ -220,7 +225,7 @@ class World:
     def class_ref(self, module, node):
         bases = []
         for b in node.bases:
-            bases.append(ast.unparse(b).split('.')[-1])
+            bases.append(ast.unparse(b))
         return ClassRef(node.name, tuple(bases), module, node)
 
     def class_by_name(self, name, module):
@@ -229,6 +234,23 @@ class World:
         if name in BUILTIN_EXC:
             return BUILTIN_EXC[name]
         mods = []
+        if '.' in name:
+            # module-qualified base class: resolve the qualifier through the
+            # defining module's imports
+            prefix, name = name.rsplit('.', 1)
+            target = None
+            if module is not None and not isinstance(module, str):
+                ent = module.top.get(prefix.split('.')[0])
+                if ent and isinstance(ent[-1], tuple):
+                    e = ent[-1]
+                    target = e[1] if e[0] == 'import' else e[1] + '.' + e[2]
+                    rest = prefix.split('.')[1:]
+                    if rest:
+                        target += '.' + '.'.join(rest)
+            if target and self.is_repo_module(target):
+                module = self.module(target)
+            else:
+                module = None
         if module is not None and not isinstance(module, str):
             mods.append(module)
         m = self.module('yaql.language.exceptions')
@@ -242,13 +264,53 @@ class World:
             return None
         return ClassRef(name, (), None)
 
+    def unhashable_class(self, cls):
+        """Python's rule: a class whose body defines __eq__ without
+        __hash__ (or sets __hash__ = None) makes its instances unhashable;
+        the nearest class in the MRO that mentions either decides."""
+        todo, seen = [cls], set()
+        while todo:
+            c = todo.pop(0)
+            if c is None or _cid(c) in seen or c.node is None:
+                continue
+            seen.add(_cid(c))
+            names, hash_none = set(), False
+            for st in c.node.body:
+                if isinstance(st, ast.FunctionDef):
+                    names.add(st.name)
+                elif isinstance(st, ast.Assign):
+                    for t in st.targets:
+                        if isinstance(t, ast.Name):
+                            names.add(t.id)
+                            if t.id == '__hash__' and isinstance(
+                                    st.value, ast.Constant) and \
+                                    st.value.value is None:
+                                hash_none = True
+            if hash_none:
+                return True
+            if '__hash__' in names:
+                return False
+            if '__eq__' in names:
+                return True
+            for b in c.bases:
+                todo.append(self.class_by_name(b, c.module))
+        return False
+
+    def check_hashable(self, key, it, node=None):
+        if isinstance(key, ObjVal) and self.unhashable_class(key.cls):
+            it.raise_('TypeError', "unhashable type: '%s'" % key.cls.name,
+                      node=node)
+        if isinstance(key, (list, dict, set)) and not getattr(
+                type(key), 'pyvc_attrs', None):
+            it.raise_('TypeError', 'unhashable type', node=node)
+
     def find_method(self, cls, name):
         todo, seen = [cls], set()
         while todo:
             c = todo.pop(0)
-            if c is None or c.name in seen or c.node is None:
+            if c is None or _cid(c) in seen or c.node is None:
                 continue
-            seen.add(c.name)
+            seen.add(_cid(c))
             for n in c.node.body:
                 if isinstance(n, ast.FunctionDef) and n.name == name:
                     return c, n
@@ -265,7 +327,7 @@ class World:
         while todo:
             c = todo.pop(0)
             if c is None or c.node is None or any(
-                    c.name == x.name for x in out):
+                    _cid(c) == _cid(x) for x in out):
                 continue
             out.append(c)
             todo.extend(self.class_by_name(b, c.module) for b in c.bases)
@@ -273,8 +335,8 @@ class World:
 
     def find_method_after(self, cls, after, name):
         mro = self.linear_mro(cls)
-        names = [c.name for c in mro]
-        start = names.index(after.name) + 1 if after.name in names else 0
+        names = [_cid(c) for c in mro]
+        start = names.index(_cid(after)) + 1 if _cid(after) in names else 0
         for c in mro[start:]:
             for n in c.node.body:
                 if isinstance(n, ast.FunctionDef) and n.name == name:
